@@ -14,7 +14,7 @@ ASSUME = c02.ASSUME[:4] + [
     "ASAP bound recomputed from observed predecessor dates; ALAP deadline = own/inherited end, else earliest successor start minus gap, else observed project end",
 ]
 
-PATTERNS = ["one20", "one90", "one600", "chain", "indep", "fork", "prio", "team", "gapchain", "nestends", "mid10", "mid25", "mid40", "mid50", "gaplen2h", "gaplen1d"]
+PATTERNS = ["one20", "one90", "one600", "chain", "indep", "fork", "prio", "team", "gapchain", "nestends", "mid10", "mid25", "mid40", "mid50", "gaplen2h", "gaplen1d", "cgap"]
 
 
 def universe(tier):
@@ -81,6 +81,11 @@ def to_spec(it):
     elif pat.startswith("gaplen"):
         # gaplength = working time of the PROJECT calendar after the predecessor's end; the task's own resource may have another calendar
         tasks = [{"id": "p", "effort": 120, "alloc": ["r2"]}, T("a", 90, deps=[{"ref": "p", "gaplen": pat[6:]}]), T("low", 60, prio=300)]
+    elif pat == "cgap":
+        # the gapped edge sits on a CONTAINER; the successor leaf below it has a depends list of its own (so it does not simply
+        # inherit a copy of the container's list); one more level in between
+        tasks = [T("x", 90), {"id": "v", "effort": 30, "alloc": ["r2"]}, {"id": "g", "deps": [{"ref": "x", "gap": "5h"}], "children": [
+            {"id": "h", "children": [{"id": "w", "effort": 60, "alloc": ["r2"], "deps": ["v"]}, T("y", 120, deps=["!w"])]}]}]
     elif pat == "gapchain":
         # successor on another resource, gap that is not a multiple of the slot: the predecessor's deadline falls inside a slot
         tasks = [T("a", 150), {"id": "b", "effort": 90, "alloc": ["r2"], "deps": [{"ref": "a", "gap": "90min" if L == 60 else "50min"}]}]
